@@ -177,8 +177,9 @@ func OracleC11(tr *Trace) Verdict {
 			for _, o := range ld {
 				if Contains(o.Ver.Value, id, c.Token) {
 					none = false
-				} else {
-					all = false
+				}
+				if !Definitely(o.Ver.Value, id, c.Token) {
+					all = false // ambiguous encodings (duplicate keys, non-string duplicates) count as "mixed"
 				}
 			}
 			// gaps (no live record for a while) count as "does not name it"
